@@ -117,13 +117,19 @@ Fixpoint list_eqb {A} (f : A -> A -> bool) (a b : list A) : bool :=
   end.
 
 Fixpoint userset_eqb (a b : userset) : bool :=
+  let fix go (xs ys : list userset) : bool :=
+    match xs, ys with
+    | [], [] => true
+    | x :: xs', y :: ys' => userset_eqb x y && go xs' ys'
+    | _, _ => false
+    end in
   match a, b with
   | UUnset, UUnset => true
   | UThis x, UThis y => this_repr_eqb x y
   | UComputed x, UComputed y => str_eqb x y
   | UTTU t1 c1, UTTU t2 c2 => str_eqb t1 t2 && str_eqb c1 c2
-  | UUnion xs, UUnion ys => list_eqb userset_eqb xs ys
-  | UInter xs, UInter ys => list_eqb userset_eqb xs ys
+  | UUnion xs, UUnion ys => go xs ys
+  | UInter xs, UInter ys => go xs ys
   | UDiff b1 s1, UDiff b2 s2 => userset_eqb b1 b2 && userset_eqb s1 s2
   | _, _ => false
   end.
